@@ -192,7 +192,7 @@ def parse_module(path):
                 if curblk.startswith('"'): curblk = curblk[1:-1]
                 cur.blocks[curblk] = []; continue
             lst = cur.blocks.setdefault(curblk, [])
-            if lst and ln.startswith('    '):
+            if lst and (ln.startswith('    ') or (re.match(r'^(%\S+ = )?switch ', lst[-1]) and '[' in lst[-1] and ']' not in lst[-1])):
                 # continuation line: "to label .. unwind ..", switch cases, landingpad clauses
                 lst[-1] = lst[-1] + ' ' + st
             else:
@@ -553,10 +553,8 @@ class FnTranslator:
 
     def globalref(s, g, ty):
         if g in s.m.funcs or g in s.m.decls:
-            if s.opts.get('allow_fnptr'):
-                s.callees.add(g)
-                return '((%s)%s)' % (s.em.ctype(ty), san(g))
-            die("address of function %s taken" % g)
+            # the address of a function as data (exception destructors, vtables): never callable here, indirect calls abort
+            return '((%s)VERIF_fnaddr_)' % s.em.ctype(ty)
         s.globals_used.add(g)
         return '((%s)&G_%s)' % (s.em.ctype(ty), san(g))
 
@@ -996,6 +994,7 @@ PRELUDE = r'''/* generated by /verif/extract/ll2c.py -- do not edit */
 #include <stdlib.h>
 typedef void (*FNPTR)(void);
 static uint64_t VERIF_dummy_;
+static void VERIF_fnaddr_(void) { __CPROVER_assert(0, "call through a function address that the translation does not model"); }
 #ifndef VERIF_CUSTOM_RUNTIME
 static void* VERIF_new(uint64_t n) { void* p = malloc(n); __CPROVER_assume(p != 0); return p; }
 static void VERIF_delete(void* p) { free(p); }
@@ -1033,7 +1032,10 @@ def resolve_alias(em, m, spec):
         else: die("alias: unknown function %s" % f)
     else:
         die("alias spec? " + spec)
-    for step in parts[1:]:
+    return resolve_alias_steps(em, m, spec, t, parts[1:])
+
+def resolve_alias_steps(em, m, spec, t, steps):
+    for step in steps:
         if step == '*':
             if not isinstance(t, PtrTy): die("alias %s: not a pointer" % spec)
             t = t.to
@@ -1045,7 +1047,7 @@ def resolve_alias(em, m, spec):
                 if k >= len(rt.fields): die("alias %s: field out of range" % spec)
                 t = rt.fields[k]
             else: die("alias %s: cannot step into %s" % (spec, rt.key()))
-    return em.ctype(t)
+    return t
 
 def translate(path, cfg):
     roots = cfg['roots']; stubs = set(cfg.get('stubs', [])); opts = cfg.get('opts') or {}
@@ -1071,7 +1073,9 @@ def translate(path, cfg):
             if f in m.funcs:
                 fn = m.funcs[f]; protos[f] = (fn.ret, [t for t, _ in fn.params])
             elif f in m.decls:
-                if f not in stubs: die("call to external function %s which is neither stubbed nor in the runtime map" % f)
+                if f not in stubs:
+                    if opts.get('list_only'): info['missing_std'].append(f)
+                    else: die("call to external function %s which is neither stubbed nor in the runtime map" % f)
                 protos[f] = (m.decls[f][0], m.decls[f][1])
             else: die("unknown callee " + f)
             continue
@@ -1094,6 +1098,10 @@ def translate(path, cfg):
             else: info.setdefault('stubs_missing', []).append(f)   # no longer called / instantiated: nothing to replace
     # layout guards
     for (tyname, member, index) in cfg.get('layout_guards', []):
+        if tyname[:2] in ('T:', 'P:', 'R:'):
+            rt_ = resolve_alias(em, m, tyname)
+            if not isinstance(rt_, NamedTy): die("layout guard %s does not denote a named struct" % tyname)
+            tyname = rt_.name
         hits = 0
         for f, ft in fts.items():
             for (res, tn, k) in ft.geps:
@@ -1128,7 +1136,7 @@ def translate(path, cfg):
         sigs.append('%s %s(%s);' % (em.ctype(ret), san(f), ', '.join(em.ctype(t) for t in ps) or 'void'))
     aliases = []
     for name, spec in (cfg.get('aliases') or {}).items():
-        aliases.append('#define %s %s' % (name, resolve_alias(em, m, spec)))
+        aliases.append('#define %s %s' % (name, em.ctype(resolve_alias(em, m, spec))))
     short = {}
     for name, mangled in (cfg.get('names') or {}).items():
         short[mangled] = name
